@@ -4,8 +4,14 @@ import (
 	"bytes"
 	"fmt"
 	"os"
+	"strings"
 	"time"
 )
+
+// skipStoredProofCheck (debugging aid for sensitivity experiments only): the
+// proof read back from the graph is not judged, so that the oracle on what the
+// node SENDS can be shown to catch a bad assembled proof on its own.
+var skipStoredProofCheck = os.Getenv("GOSSIPSIM_SKIP_STORED_PROOF_CHECK") != ""
 
 // strictNodeOrder turns on an optional oracle that is NOT part of property
 // C20 as stated: BOLT 7 wants node_id_1 < node_id_2 in a channel announcement.
@@ -23,6 +29,11 @@ type msgInfo struct {
 	// strictly newer than what the graph held for its key (or the graph
 	// held nothing). Only meaningful for updates and node announcements.
 	fresh bool
+	// local: handed to the node by a local sub-system (own-channels arm)
+	local bool
+	// selfMade: never delivered - the node signed it itself (a re-signed
+	// update of its own channel); recorded when it entered the graph
+	selfMade bool
 }
 
 // fail raises a violation. If the graph holds (or held) a channel whose two
@@ -59,7 +70,10 @@ func (s *Sim) check(what string) {
 			delete(s.prematurePending, fmt.Sprintf("%d/1", scid))
 			s.justifyChanAdd(c, what)
 			o = &pChan{} // policies compared against "none"
-		} else if !bytes.Equal(o.wire, c.wire) || o.err != c.err || o.capacity != c.capacity || o.outpoint != c.outpoint {
+		} else if o.noProof && !c.noProof {
+			// an unannounced channel of the node itself got its proof
+			s.justifyProof(o, c, what)
+		} else if !bytes.Equal(o.wire, c.wire) || o.err != c.err || o.capacity != c.capacity || o.outpoint != c.outpoint || o.noProof != c.noProof {
 			s.fail("chan-modified", "%s: stored announcement/capacity/outpoint of channel %s changed (%x.. -> %x.., cap %d -> %d, %v -> %v); a channel announcement is immutable",
 				what, scidStr(scid), head(o.wire), head(c.wire), o.capacity, c.capacity, o.outpoint, c.outpoint)
 		}
@@ -168,6 +182,9 @@ func (s *Sim) check(what string) {
 	}
 
 	// ---- relays ----
+	if s.cfg.Own {
+		s.ownInbox(what)
+	}
 	for _, e := range s.w.drain() {
 		s.justifyRelay(e, old, cur, what)
 	}
@@ -218,6 +235,14 @@ func (s *Sim) justifyChanAdd(c *pChan, what string) {
 		delete(s.liveUpd, c.scid)
 	}
 	mi := s.findDelivered(c.wire)
+	if oc := s.own[c.scid]; oc != nil && oc.opened > 0 && (c.noProof || mi == nil) {
+		// a channel of the node itself, handed over by the funding manager
+		s.justifyOwnAdd(oc, c, what)
+		return
+	}
+	if c.noProof {
+		s.fail("chan-unjustified", "%s: channel %s entered the graph without a channel proof although no local sub-system handed it over", what, id)
+	}
 	if mi == nil || mi.kind != typeChanAnn {
 		s.fail("chan-unjustified", "%s: channel %s entered the graph, but no delivered channel_announcement has the bytes the graph now holds (%x..)", what, id, head(c.wire))
 	}
@@ -268,6 +293,9 @@ func (s *Sim) justifyPolicy(c *pChan, d int, old, cur *pPolicy, what string) {
 		s.fail("policy-unjustified", "%s: policy %s stored in a form that cannot be announced: %s", what, id, cur.err)
 	}
 	mi := s.findDelivered(cur.wire)
+	if oc := s.own[c.scid]; mi == nil && oc != nil && d == oc.c.selfIdx && cur.wire != nil {
+		mi = s.selfMadeUpdate(c, d, old, cur, what)
+	}
 	if mi == nil || mi.kind != typeChanUpdate {
 		s.fail("policy-unjustified", "%s: policy %s changed (ts %d), but no delivered channel_update has the bytes the graph now holds (%x..)", what, id, cur.ts, head(cur.wire))
 	}
@@ -331,10 +359,17 @@ func (s *Sim) justifyNode(n, old *pNode, before, after *projection, what string)
 // justifyRelay: "Anything else ... is not relayed to peers."
 func (s *Sim) justifyRelay(e emitted, before, after *projection, what string) {
 	r := s.r
+	if traceFile != nil && traceEmit {
+		// debugging aid; not part of the hashed trace
+		fmt.Fprintf(traceFile, "    emit #%d %s %x..\n", s.step, e.via, head(e.wire))
+	}
 	mi := s.findDelivered(e.wire)
 	if mi == nil {
 		if bytes.Equal(e.wire, s.w.selfWire) {
 			r.Count("relay_self_node")
+			return
+		}
+		if s.cfg.Own && s.ownAssembledRelay(e, after, what) {
 			return
 		}
 		s.fail("relay-unknown", "%s: the node sent out (%s) a gossip message nobody delivered to it: %x..", what, e.via, head(e.wire))
@@ -343,12 +378,21 @@ func (s *Sim) justifyRelay(e emitted, before, after *projection, what string) {
 	switch mi.kind {
 	case typeChanAnn:
 		m, _ := parseCA(mi.wire)
+		if s.ownAnnouncementSent(m, e, after, what) {
+			// a peer delivered the very bytes the node later assembled
+			// itself for its own channel
+			r.Count("relayed_own_chan_ann")
+			return
+		}
 		c := s.everChan[m.scid]
 		if c == nil {
 			c = after.chans[m.scid]
 		}
 		if c == nil || !bytes.Equal(c.wire, mi.wire) {
 			s.fail("relay-unaccepted", "%s: channel_announcement [%s] relayed (%s) although it never entered the graph", what, mi.label, e.via)
+		}
+		if !m.sigsOK() {
+			s.fail("relay-bad-signature", "%s: channel_announcement [%s] sent out (%s) although its four signatures do not all verify over its digest under the stated keys", what, mi.label, e.via)
 		}
 		r.Count("relayed_chan_ann")
 	case typeChanUpdate:
@@ -385,4 +429,178 @@ func (s *Sim) justifyRelay(e emitted, before, after *projection, what string) {
 		}
 		r.Count("relayed_node_ann")
 	}
+}
+
+// ---- channels of the node itself (own-channels arm) ----
+
+// checkFunding: "... and the referenced funding output exists, is unspent and
+// pays to the 2-of-2 of those bitcoin keys" plus what the graph stores about it.
+func (s *Sim) checkFunding(c *pChan, m *wireCA, label, what string) {
+	id := scidStr(c.scid)
+	if !bytes.Equal(m.chainHash, s.u.chainHash[:]) {
+		s.fail("chan-wrong-chain", "%s: channel %s entered the graph from announcement [%s] for another chain", what, id, label)
+	}
+	t := s.w.chain.Lookup(m.height(), m.txIndex(), m.outIndex())
+	if !t.Exists {
+		s.fail("chan-no-funding", "%s: channel %s entered the graph from [%s], but the chain has no output at that position", what, id, label)
+	}
+	if t.Spent {
+		s.fail("chan-funding-spent", "%s: channel %s entered the graph from [%s], but its funding output %v is already spent", what, id, label, t.OutPoint)
+	}
+	if !bytes.Equal(t.PkScript, p2wsh2of2(m.btc1, m.btc2)) {
+		s.fail("chan-funding-mismatch", "%s: channel %s entered the graph from [%s], but output %v does not pay to the 2-of-2 of the announced bitcoin keys", what, id, label, t.OutPoint)
+	}
+	if c.capacity != t.Value || c.outpoint != t.OutPoint {
+		s.fail("chan-wrong-capacity", "%s: channel %s stored with capacity %d / outpoint %v, the chain says %d / %v", what, id, c.capacity, c.outpoint, t.Value, t.OutPoint)
+	}
+	if !bytes.Equal(c.node[0][:], m.node1) || !bytes.Equal(c.node[1][:], m.node2) {
+		s.fail("chan-unjustified", "%s: channel %s stored under node keys other than the announced ones", what, id)
+	}
+}
+
+// justifyOwnAdd: a channel of the node itself enters the graph because the
+// funding manager handed it over - with exactly the announced fields, a sound
+// funding output, and (normally) without proof.
+func (s *Sim) justifyOwnAdd(oc *ownChan, c *pChan, what string) {
+	r := s.r
+	id := scidStr(c.scid)
+	m, ok := parseCA(c.wire)
+	if !ok || m.scid != c.scid {
+		s.fail("chan-unjustified", "%s: channel %s: stored announcement does not parse as one for that id", what, id)
+	}
+	if !bytes.Equal(m.signed, oc.caWire[2+256:]) {
+		s.fail("chan-unjustified", "%s: own channel %s entered the graph with other fields than the funding manager handed over", what, id)
+	}
+	label := fmt.Sprintf("local CA chan%d without proof", oc.c.idx)
+	s.checkFunding(c, m, label, what)
+	if !c.noProof {
+		// announcement and both halves went through within one step
+		s.checkProof(oc, c, m, what)
+	}
+	logf(r, "  graph: + own channel %s from [%s] cap=%d", id, label, c.capacity)
+	r.Count("graph_own_chan_added")
+	s.applied++
+}
+
+// justifyProof: an unannounced channel of the node itself now carries a
+// proof. The announced fields are immutable; the proof must verify.
+func (s *Sim) justifyProof(o, c *pChan, what string) {
+	id := scidStr(c.scid)
+	m, ok := parseCA(c.wire)
+	mo, ok2 := parseCA(o.wire)
+	oc := s.own[c.scid]
+	if c.err != "" || !ok || !ok2 || !bytes.Equal(m.signed, mo.signed) || o.capacity != c.capacity || o.outpoint != c.outpoint || oc == nil {
+		s.fail("chan-modified", "%s: stored announcement/capacity/outpoint of channel %s changed when its proof was added (%s); a channel announcement is immutable", what, id, c.err)
+	}
+	s.checkProof(oc, c, m, what)
+}
+
+// checkProof: "A channel announcement ... enters the graph only if all four
+// signatures verify over the announcement digest under the stated node and
+// bitcoin keys" - for the announcement the node assembled itself from the two
+// announcement_signatures halves, read back from the graph.
+func (s *Sim) checkProof(oc *ownChan, c *pChan, m *wireCA, what string) {
+	r := s.r
+	id := scidStr(c.scid)
+	if oc.localHalves == 0 {
+		s.fail("own-proof-without-local-half", "%s: own channel %s now carries a channel proof although the funding manager never handed over the local announcement_signatures (the channel was not to be announced yet)", what, id)
+	}
+	d := dsha(m.signed)
+	keys := [4][]byte{m.node1, m.node2, m.btc1, m.btc2}
+	names := [4]string{"node_signature_1", "node_signature_2", "bitcoin_signature_1", "bitcoin_signature_2"}
+	var bad []string
+	for i := 0; i < 4 && !skipStoredProofCheck; i++ {
+		if !verify64(m.sigs[i], d, keys[i]) {
+			bad = append(bad, names[i])
+		}
+	}
+	if len(bad) > 0 {
+		s.fail("own-proof-bad-signature", "%s: the channel proof the node assembled and stored for its own channel %s does not verify: %s not valid over the announcement digest under the stated key (the node is node %d; remote halves delivered: %s)",
+			what, id, strings.Join(bad, ", "), oc.c.selfIdx+1, oc.remoteHalves())
+	}
+	switch s.stepKind {
+	case "own-half-local":
+		r.Count("probe_own_proof_completed_by_local_half")
+	case "own-half-remote":
+		r.Count("probe_own_proof_completed_by_remote_half")
+	case "block":
+		r.Count("probe_own_proof_completed_when_mature")
+	}
+	logf(r, "  graph: own channel %s now carries a full proof (four signatures verify)", id)
+	r.Count("graph_own_proof_added")
+	s.applied++
+}
+
+// selfMadeUpdate: the policy of the node's own direction changed to an update
+// nobody delivered - the node re-signed its policy itself (retransmission of
+// stale announcements). Registered like a delivered message, so that the
+// common rules (signed by the owner of the direction, strictly newer,
+// consistent) and the relay rules judge it.
+func (s *Sim) selfMadeUpdate(c *pChan, d int, old, cur *pPolicy, what string) *msgInfo {
+	m, ok := parseCU(cur.wire)
+	if !ok || old == nil || !m.signedBy(s.w.self.pub[:]) {
+		return nil
+	}
+	mi := &msgInfo{wire: cur.wire, kind: typeChanUpdate, first: s.step, fresh: true, selfMade: true,
+		label: fmt.Sprintf("CU %s/%d ts=%d re-signed by the node itself", scidStr(c.scid), d, m.ts)}
+	s.byWire[string(cur.wire)] = mi
+	s.curWires[string(cur.wire)] = true
+	s.r.Count("probe_own_update_resigned_by_node")
+	return mi
+}
+
+// ownAssembledRelay: the node sent out a message nobody delivered. Either a
+// channel_announcement: it must be the one it assembled for a channel of its
+// own - the bytes the graph holds - and "all four signatures verify". Or a
+// channel_update it signed itself for its own direction of its own channel
+// (a re-signed policy may be replaced by the next one before the simulator
+// sees it in the graph): "signed by the node owning that direction of a known
+// channel ... and carries consistent fields".
+func (s *Sim) ownAssembledRelay(e emitted, after *projection, what string) bool {
+	if u, ok := parseCU(e.wire); ok {
+		oc := s.own[u.scid]
+		c := after.chans[u.scid]
+		if c == nil {
+			c = s.everChan[u.scid]
+		}
+		if oc == nil || c == nil || u.dir() != oc.c.selfIdx || !u.signedBy(s.w.self.pub[:]) ||
+			!bytes.Equal(u.chainHash, s.u.chainHash[:]) {
+			return false
+		}
+		if !u.consistent(c.capacity) {
+			s.fail("relay-inauthentic", "%s: the node sent out (%s) a channel_update it signed itself for %s/%d with inconsistent fields", what, e.via, scidStr(u.scid), u.dir())
+		}
+		s.r.Count("relayed")
+		s.r.Count("relayed_self_made_update")
+		return true
+	}
+	m, ok := parseCA(e.wire)
+	if !ok || !s.ownAnnouncementSent(m, e, after, what) {
+		return false
+	}
+	s.r.Count("relayed")
+	s.r.Count("relayed_own_chan_ann")
+	return true
+}
+
+// ownAnnouncementSent: m, sent out by the node, is the announcement of one of
+// its own channels: the fields the funding manager handed over, for a channel
+// that has been in the graph and that the funding manager asked to announce.
+// Then (and whether or not the simulator ever saw the proof in the graph: the
+// channel may be closed by the very block that makes the proof mature) "all
+// four signatures verify over the announcement digest under the stated node
+// and bitcoin keys" is required of it.
+func (s *Sim) ownAnnouncementSent(m *wireCA, e emitted, after *projection, what string) bool {
+	oc := s.own[m.scid]
+	if oc == nil || oc.localHalves == 0 || !bytes.Equal(m.signed, oc.caWire[2+256:]) {
+		return false
+	}
+	if s.everChan[m.scid] == nil && after.chans[m.scid] == nil {
+		return false
+	}
+	if !m.sigsOK() {
+		s.fail("relay-bad-signature", "%s: the node sent out (%s) the channel_announcement it assembled for its own channel %s, but its four signatures do not all verify over its digest under the stated keys (remote halves delivered: %s)",
+			what, e.via, scidStr(m.scid), oc.remoteHalves())
+	}
+	return true
 }
